@@ -54,52 +54,64 @@ SpeciesFor(I, lca, base, u) == IF base THEN {lca[u]} ELSE 1..I.n
 LabelsFor(F, u) == {F.req[u] \cup X : X \in SUBSET (F.allowed[u] \ F.req[u])}
 \* the two choices the solver searches
 CanonLabelsFor(F, ot, u, P) == {F.req[u], P \cup F.gains[u]}
+\* every label a node can get through canonical choices from the root down
+RECURSIVE CanonDom(_, _, _)
+CanonDom(F, ot, u) == IF u = 1 THEN {F.req[1]}
+                      ELSE {F.req[u]} \cup {P \cup F.gains[u] : P \in CanonDom(F, ot, ot[u])}
+
+\* a cell is [v |-> optimum, arg |-> the pairs of child states achieving it]
+CellOf(cands) ==
+  LET v == SetMin({x[1] : x \in cands})
+  IN [v |-> v, arg |-> IF v >= Inf THEN {} ELSE {<<x[2], x[3]>> : x \in {y \in cands : y[1] = v}}]
 
 UnRow(inp, I, F, lca, base, canon, prev, u) ==
   LET ot == inp.ot IN
-  IF IsLeaf(ot, u) THEN [q \in {<<inp.lm[u], F.req[u]>>} |-> 0]
+  IF IsLeaf(ot, u) THEN [q \in {<<inp.lm[u], F.req[u]>>} |-> [v |-> 0, arg |-> {}]]
   ELSE LET l == Left(ot, u)
            r == Right(ot, u)
-           fl == {q \in DOMAIN prev[l] : prev[l][q] < Inf}
-           fr == {q \in DOMAIN prev[r] : prev[r][q] < Inf}
+           fl == {q \in DOMAIN prev[l] : prev[l][q].v < Inf}
+           fr == {q \in DOMAIN prev[r] : prev[r][q].v < Inf}
            ok(P, cc, q) == ~canon \/ q[2] \in CanonLabelsFor(F, ot, cc, P)
-       IN [q \in SpeciesFor(I, lca, base, u) \X LabelsFor(F, u) |->
-             SetMin({Add3(LocalUn(I, F, inp.c, q[1], q[2], l, ql, r, qr), prev[l][ql], prev[r][qr]) :
+       IN [q \in SpeciesFor(I, lca, base, u) \X (IF canon THEN CanonDom(F, ot, u) ELSE LabelsFor(F, u)) |->
+             CellOf({<<Add3(LocalUn(I, F, inp.c, q[1], q[2], l, ql, r, qr), prev[l][ql].v, prev[r][qr].v), ql, qr>> :
                        ql \in {x \in fl : ok(q[2], l, x)}, qr \in {x \in fr : ok(q[2], r, x)}})]
 
 UnTable(inp, I, F, lca, base, canon) ==
   FoldLeft(LAMBDA acc, u : (u :> UnRow(inp, I, F, lca, base, canon, acc, u)) @@ acc, <<>>, BottomUp(inp.ot))
 
-UnRootMin(T, F) == SetMin({T[1][q] : q \in {x \in DOMAIN T[1] : x[2] = F.req[1]}})
+UnRootMin(T, F) == SetMin({T[1][q].v : q \in {x \in DOMAIN T[1] : x[2] = F.req[1]}})
 
-RECURSIVE UnDecode(_, _, _, _, _, _, _)
-UnDecode(inp, I, F, canon, T, u, q) ==
-  LET ot == inp.ot IN
+\* optimal assignments of the subtree of u given state q of u, along the stored argmins
+RECURSIVE UnDecode(_, _, _, _)
+UnDecode(ot, T, u, q) ==
   IF IsLeaf(ot, u) THEN {(u :> q)}
-  ELSE LET l == Left(ot, u)
-           r == Right(ot, u)
-           ok(cc, x) == ~canon \/ x[2] \in CanonLabelsFor(F, ot, cc, q[2])
-           best == {pr \in (DOMAIN T[l]) \X (DOMAIN T[r]) :
-                      /\ T[l][pr[1]] < Inf /\ T[r][pr[2]] < Inf /\ ok(l, pr[1]) /\ ok(r, pr[2])
-                      /\ Add3(LocalUn(I, F, inp.c, q[1], q[2], l, pr[1], r, pr[2]), T[l][pr[1]], T[r][pr[2]]) = T[u][q]}
-       IN UNION {{(u :> q) @@ al @@ ar : al \in UnDecode(inp, I, F, canon, T, l, pr[1]),
-                                         ar \in UnDecode(inp, I, F, canon, T, r, pr[2])} : pr \in best}
+  ELSE UNION {{(u :> q) @@ al @@ ar : al \in UnDecode(ot, T, Left(ot, u), pr[1]),
+                                      ar \in UnDecode(ot, T, Right(ot, u), pr[2])} : pr \in T[u][q].arg}
 
 SortedSeq(S) == SetToSortSeq(S, LAMBDA a, b : a < b)
 SolOf(inp, a) == [m |-> [u \in Nodes(inp.ot) |-> a[u][1]],
                   lab |-> [u \in Nodes(inp.ot) |-> SortedSeq(a[u][2])]]
 
-\* minimum over every labelling, minimum and optimal set over the canonical ones
-UnExpected(inp, I, OI, base) ==
-  LET lca == LcaMap(inp.ot, OI, I, inp.lm)
-      F == FInfo(inp.ot, OI, inp.syn)
-      TA == UnTable(inp, I, F, lca, base, FALSE)
-      TC == UnTable(inp, I, F, lca, base, TRUE)
-      mn == UnRootMin(TC, F)
-  IN [min |-> UnRootMin(TA, F), mincanon |-> mn,
-      opt |-> IF mn >= Inf THEN {}
-              ELSE UNION {{SolOf(inp, a) : a \in UnDecode(inp, I, F, TRUE, TC, 1, q)} :
-                            q \in {x \in DOMAIN TC[1] : x[2] = F.req[1] /\ TC[1][x] = mn}}]
+\* number of optional families over the internal nodes (size of the labelling space)
+FreeCount(ot, F) == FoldLeft(LAMBDA acc, u : acc + Cardinality(F.allowed[u] \ F.req[u]), 0, SetToSeq(Internal(ot)))
+
+\* minimum over every labelling, minimum and optimal set over the canonical ones.
+\* Beyond `limit` optional families the all-labellings table is not built and the
+\* canonical minimum stands for it (lemma CanonLemma, model-checked on the bound).
+\* (TLC evaluates operator arguments once but re-evaluates LET definitions used
+\* under nested quantifiers: the tables are therefore handed down as arguments.)
+UnExpM(inp, F, full, TC, mn, mnAll) ==
+  [min |-> IF full THEN mnAll ELSE mn, mincanon |-> mn, full |-> full,
+   opt |-> IF mn >= Inf THEN {}
+           ELSE UNION {{SolOf(inp, a) : a \in UnDecode(inp.ot, TC, 1, q)} :
+                         q \in {x \in DOMAIN TC[1] : x[2] = F.req[1] /\ TC[1][x].v = mn}}]
+UnExpT(inp, I, F, lca, base, full, TC) ==
+  UnExpM(inp, F, full, TC, UnRootMin(TC, F),
+         IF full THEN UnRootMin(UnTable(inp, I, F, lca, base, FALSE), F) ELSE 0)
+UnExpF(inp, I, base, limit, lca, F) ==
+  UnExpT(inp, I, F, lca, base, FreeCount(inp.ot, F) <= limit, UnTable(inp, I, F, lca, base, TRUE))
+UnExpected(inp, I, OI, base, limit) ==
+  UnExpF(inp, I, base, limit, LcaMap(inp.ot, OI, I, inp.lm), FInfo(inp.ot, OI, inp.syn))
 
 (***************************************************************************)
 (* Validity and cost of one given solution                                 *)
